@@ -53,6 +53,23 @@ class System:
 
 
 # ----------------------------------------------------------------------------- single_thread_prefetch
+QUEUE_CTORS = ('queue.Queue', 'queue.LifoQueue', 'queue.SimpleQueue', 'Queue', 'LifoQueue', 'SimpleQueue')
+
+
+def _queue_decl(call):
+    """(constructor source, capacity expression or None)"""
+    src = ast.unparse(call.func)
+    if not src.startswith('queue.'):
+        src = 'queue.' + src
+    cap = call.args[0] if call.args else None
+    for kw in call.keywords:
+        if kw.arg == 'maxsize':
+            cap = kw.value
+        else:
+            raise cfg.Unsupported('queue constructor keyword ' + str(kw.arg))
+    return (src, cap)
+
+
 def build_stp(QC):
     fn, path = _source_of('single_thread_prefetch')
     prog = cfg.Prog()
@@ -67,19 +84,23 @@ def build_stp(QC):
         if isinstance(s, ast.Assign) and isinstance(s.value, ast.Call) and len(s.targets) == 1 and isinstance(s.targets[0], ast.Name):
             src = ast.unparse(s.value.func)
             name = s.targets[0].id
-            if src in ('queue.Queue', 'queue.LifoQueue', 'queue.SimpleQueue', 'queue.PriorityQueue'):
-                if src == 'queue.PriorityQueue':
-                    raise cfg.Unsupported('queue.PriorityQueue')
-                prog.queues[name] = (src, s.value.args[0] if s.value.args else (s.value.keywords[0].value if s.value.keywords else None))
+            if src in QUEUE_CTORS:
+                prog.queues[name] = _queue_decl(s.value)
                 continue
             if src == 'object':
                 tokens[name] = cfg.SENT
                 continue
-            if src == 'threading.Thread':
-                tgt = [kw.value.id for kw in s.value.keywords if kw.arg == 'target']
-                if len(tgt) != 1 or tgt[0] not in defs:
+            if src in ('threading.Thread', 'Thread'):
+                # Thread(group=None, target=None, name=None, args=(), kwargs=None, *, daemon=None)
+                tgt = [kw.value for kw in s.value.keywords if kw.arg == 'target'] or list(s.value.args[1:2])
+                targs = [kw.value for kw in s.value.keywords if kw.arg in ('args', 'kwargs')] + list(s.value.args[3:5])
+                if len(tgt) != 1 or not isinstance(tgt[0], ast.Name) or tgt[0].id not in defs:
                     raise cfg.Unsupported('threading.Thread target')
-                prog.threads[name] = tgt[0]
+                for a in targs:
+                    if not (isinstance(a, (ast.Tuple, ast.List, ast.Dict)) and not (a.elts if not isinstance(a, ast.Dict) else a.keys)) \
+                            and not (isinstance(a, ast.Constant) and a.value is None):
+                        raise cfg.Unsupported('threading.Thread with arguments')
+                prog.threads[name] = tgt[0].id
                 continue
         main.append(s)
     sysm = System()
@@ -87,7 +108,9 @@ def build_stp(QC):
     end_of = {}
     for tname, fname in list(prog.threads.items()) + [(None, '$main')]:
         th = fname
-        c = cfg.Compiler(prog, th, params, QC)
+        # nested helper functions that are not thread targets are inlined at their call sites (like the adapters of lazy_parallel_map)
+        helpers = {n: d for n, d in defs.items() if n not in prog.threads.values()}
+        c = cfg.Compiler(prog, th, params, QC, adapters=helpers)
         c.tokens = tokens
         c.end_of = end_of
         END = prog.newloc(th, 'END')
@@ -173,8 +196,8 @@ def build_lpm(backend, QC, N):
     params = {'generator': 'source', 'buffer_size': 'intparam', 'max_workers': 'intparam'}
     main2 = []
     for s in main:
-        if isinstance(s, ast.Assign) and isinstance(s.value, ast.Call) and ast.unparse(s.value.func) in ('queue.Queue', 'queue.LifoQueue', 'queue.SimpleQueue'):
-            prog.queues[s.targets[0].id] = (ast.unparse(s.value.func), s.value.args[0] if s.value.args else None)
+        if isinstance(s, ast.Assign) and isinstance(s.value, ast.Call) and ast.unparse(s.value.func) in QUEUE_CTORS:
+            prog.queues[s.targets[0].id] = _queue_decl(s.value)
             continue
         if isinstance(s, ast.If) and 'ensure_single_thread_numeric' in ast.unparse(s):
             continue   # environment guard: precondition of the check (OMP_NUM_THREADS=MKL_NUM_THREADS=1)
